@@ -28,6 +28,8 @@ def jobs():
         jobs_parser.register(_JOBS)
         from . import jobs_merge
         jobs_merge.register(_JOBS)
+        from . import jobs_layered
+        jobs_layered.register(_JOBS)
         from . import jobs_rfwc
         jobs_rfwc.register(_JOBS)
         names = [j.name for j in _JOBS]
@@ -140,3 +142,36 @@ prop("C03", "model_checking",
      "Open known finding: group-less keys that are not leading in an input (setter-built objects only).",
      "CBMC bounded symbolic execution of the real merge against a reference merge, one job per section-shape pair",
      "6 C03")
+
+LAYERED_NOTE = ("Modular chain: each function runs as real code against the executable form of its callees' contracts "
+                "(stubs h1/h2/h3, harness/wrappers.c); each such contract is the asserted postcondition of the job that "
+                "runs the callee (see vlib/jobs_layered.py). Bounded: <= 3 layers, <= 2 drop-in directories per layer, "
+                "<= 2 names per directory, names <= 4 bytes. Trusted: real file system/kernel, alphasort = byte order "
+                "(C locale), scandir/lstat models. Open known finding: first drop-in not masked when there is no main file.")
+prop("C01", "model_checking",
+     "The layered read is decided along its call chain: econf_readConfigWithCallback builds the three default layers "
+     "(all NULL/given shapes of project, name, usr_subdir, ROOT_PREFIX); readConfigHistoryWithCallback takes the main "
+     "file from the highest layer that has one and traverses every layer's drop-in directories in ascending order "
+     "(every combination of file states, 1-3 layers, 0-2 postfix dirs, four suffix spellings); check_conf_dir keeps "
+     "exactly the names longer than the suffix that end in it, in scandir/alphasort order, for every directory "
+     "content over a small alphabet; merge_econf_files masks by base name and folds left to right; econf_mergeFiles "
+     "is C03. Each link is real code checked by CBMC against a reference written from DESIGN.md 5.3.",
+     LAYERED_NOTE, "CBMC bounded symbolic execution of each function of the layered-read chain against executable "
+     "contracts of its callees; readConfigWithCallback and read_file_with_callback under dfcc contracts", "6 C01")
+prop("C12", "model_checking",
+     "All six entry points are run as real code against a logging contract of the two internal readers: the "
+     "two-directory entry points and their callback/history variants hand over the identical tuple; the merged "
+     "reader is proved (dfcc) to be the history reader followed by merge_econf_files on that very array; the fold "
+     "itself and the history contents (one member per file read, own path, NULL-terminated) are jobs fold.* / "
+     "history.* / dropins.*.",
+     LAYERED_NOTE + " Determinism of the internal reader for identical arguments is assumed.",
+     "CBMC: dfcc contract on readConfigWithCallback + bounded symbolic execution of the entry points", "6 C12")
+prop("C20", "model_checking",
+     "Ghost object accounting (live counter maintained by the executable contracts of the constructor/destructor, "
+     "CBMC's own double-free/invalid-free checks on the real frees): after every failure at every consulted file "
+     "(absent, rejected, wrong owner, parse error; main file or n-th drop-in) the readers have released every "
+     "object they created and the out-pointers are NULL / untouched; on success exactly the handed-out objects are "
+     "live; the fold releases every input and intermediate once; read_file_with_callback and readConfigWithCallback "
+     "under dfcc contracts with frees clauses.",
+     LAYERED_NOTE + " Definedness of memory and allocation failure are not covered (CBMC has no such check; "
+     "--no-malloc-may-fail).", "CBMC ownership counters + dfcc frees clauses along the layered-read chain", "6 C20")
